@@ -314,6 +314,56 @@ def run(ck, ctx):
     ck.guard(energy, "R04 tau_energy")
 
     bracketing_rules(ck, "R04.6", I)
+    configured_table_rules(ck, "R04.7", ctx, "tau_cdf_grid", "CDF table")
+
+
+def configured_table_rules(ck, rule, ctx, attr, what):
+    """The table a Taus object samples from is the file of ITS configured version.  Replays the history 'a second
+    object is constructed, in the same process, from a second configuration': whatever the second object holds must
+    be read under the second configuration's table version - a process-wide cache keyed on less than the version
+    hands the first object's table to every later one."""
+    from .taus_ctx import TAUS_MOD
+    J = ctx.interp()
+    cfg1, cfg2 = J.cfg_root("first configuration"), J.cfg_root("second configuration")
+    st = J.new_state()
+    cls_ = J.cls(TAUS_MOD, "Taus")
+    J.construct(cls_, [cfg1], {}, st)
+    obj2 = J.construct(cls_, [cfg2], {}, st)
+    grid2 = J.snapshot(J.res(J.load_attr(obj2, attr, st, None, None), st), st)
+    def version_roots(n):
+        return {(x.extra or {}).get("root") for x in walk([n]) if x.op == "Cfg" and x.attr[-1:] == ("table_version",)}
+    vers = version_roots(grid2)
+    if not vers:
+        ck.ob(rule, f"the {what} of a Taus object is read from the file of its configured table version", None, grid2,
+              "Taus.__init__", "no dependence on a configured table version found in the table's value")
+        return
+    # alternatives of the value with the decisions that select them: a table read under the first configuration's
+    # version is acceptable only where a decision established that the two versions are equal (a cache keyed on it)
+    alts = []
+
+    def rec(n, guards):
+        if n.op == "Phi":
+            rec(n.args[1], guards + [(n.args[0], True)])
+            rec(n.args[2], guards + [(n.args[0], False)])
+        else:
+            alts.append((n, guards))
+    rec(grid2, [])
+    roots = set()
+    for leaf, guards in alts:
+        if leaf.op == "Unknown":
+            continue                # look-up that fails (KeyError): no table at all
+        rs = version_roots(leaf)
+        if "first configuration" in rs and any(
+                pol and c.op == "Compare" and c.attr == "Eq" and
+                version_roots(c) >= {"first configuration", "second configuration"} for c, pol in guards):
+            rs = rs - {"first configuration"} | {"second configuration"}
+        roots |= rs
+    ok = roots == {"second configuration"}
+    ck.ob(rule, f"the {what} of a Taus object is the file of ITS configured table version, also when another "
+          "object was constructed before it in the same process", ok, grid2, "Taus.__init__",
+          "" if ok else f"the second object's table is read under the table version of: {sorted(map(str, roots))} "
+          "(state kept between constructions is not keyed on the version)",
+          construct=f"Taus.__init__: {attr} shared between objects of different table versions")
 
 
 def bracketing_rules(ck, rule, I):
